@@ -1,6 +1,1573 @@
-//! C10 — not built yet.
-use crate::report::{Ctx, Reporter};
+//! C10 — path patterns match exactly their language and capture exactly the matched text.
+//!
+//! Observed through the public `actix_router` API only (`ResourceDef`, `Path`, `Router`, `Quoter`,
+//! `Url`).  Oracles:
+//!
+//! * **three-way agreement**: `is_match` ⇔ `find_match().is_some()` ⇔ `capture_match_info`;
+//! * **language**: all three equal `refmodel::seg_match` (a backtracking interpreter of the
+//!   documented pattern language that does not use `regex`): same verdict, same matched length,
+//!   same captures (names in order, values, and the *byte offsets* of the values inside the path,
+//!   observed through the address of the returned `&str`), same unprocessed remainder; a failed
+//!   match or a rejecting check function leaves the `Path` untouched;
+//! * **skip arithmetic**: the same with a `Path` that already has a matched part (a prefix
+//!   definition followed by a second definition on the remainder);
+//! * **router**: `Router::recognize` returns the first registered definition that matches;
+//! * **round trip**: `resource_path_from_iter` / `_from_map` build the concatenation of the pieces,
+//!   the built path matches, and the values come back (demanded exactly when the model finds the
+//!   decomposition unique; otherwise the model's leftmost-first decomposition is demanded);
+//! * **long paths** up to 65 534 bytes with captures next to the 16-bit offset limit;
+//! * **percent-decoder**: `Quoter::requote` equals `refmodel::pct_decode` (every valid
+//!   non-protected escape decoded, nothing else, `None` ⇔ nothing decoded); `Url::new` applies it
+//!   with the protected set `% / +`; the path deserializer fully decodes each captured value.
 
-pub fn run(_ctx: &Ctx, rep: &mut Reporter) {
-    rep.inconclusive("C10 monitor not built");
+use std::collections::HashMap;
+
+use actix_router::{Path, Quoter, ResourceDef, Router, Url};
+use serde_json::{json, Value};
+
+use crate::{
+    refmodel::{
+        pct_decode,
+        seg_match::{Class, Def, Elem, Pattern, CLASSES, SEG},
+    },
+    report::{guard, panic_site, Ctx, Reporter},
+    util::{esc, esc_short, unesc, Rng},
+};
+
+// ------------------------------------------------------------------------------------------------
+// pattern grammar
+
+const LITS: [&str; 8] = ["a", "b", "ab", "1", "-", "a-b", "a1", "b-"];
+
+struct NameGen(usize);
+impl NameGen {
+    fn next(&mut self) -> String {
+        self.0 += 1;
+        format!("x{}", self.0 - 1)
+    }
+}
+
+fn pick_class(rng: &mut Rng) -> Class {
+    if rng.chance(1, 3) {
+        SEG
+    } else {
+        *rng.pick(CLASSES)
+    }
+}
+
+fn push_lit(elems: &mut Vec<Elem>, s: &str) {
+    if s.is_empty() {
+        return;
+    }
+    if let Some(Elem::Lit(l)) = elems.last_mut() {
+        l.push_str(s);
+    } else {
+        elems.push(Elem::Lit(s.to_string()));
+    }
+}
+
+/// One pattern from the grammar: up to three `/`-introduced segments, each empty, static,
+/// dynamic, custom-class, or a mix of static text and one or two dynamic parts; optionally a tail.
+fn gen_pattern(rng: &mut Rng, allow_tail: bool) -> Pattern {
+    let mut elems = vec![];
+    let mut names = NameGen(0);
+    let nseg = rng.range(0, 3);
+    for si in 0..nseg {
+        // a pattern may (rarely) not start with a slash
+        if !(si == 0 && rng.chance(1, 12)) {
+            push_lit(&mut elems, "/");
+        }
+        match rng.below(10) {
+            0 => {}                                     // empty segment
+            1 | 2 => push_lit(&mut elems, *rng.pick(&LITS)), // static
+            3 | 4 => elems.push(Elem::Var { name: names.next(), class: pick_class(rng) }),
+            5 => {
+                push_lit(&mut elems, *rng.pick(&LITS));
+                elems.push(Elem::Var { name: names.next(), class: pick_class(rng) });
+            }
+            6 => {
+                elems.push(Elem::Var { name: names.next(), class: pick_class(rng) });
+                push_lit(&mut elems, *rng.pick(&LITS));
+            }
+            7 => {
+                elems.push(Elem::Var { name: names.next(), class: pick_class(rng) });
+                push_lit(&mut elems, *rng.pick(&["-", "a", "1"]));
+                elems.push(Elem::Var { name: names.next(), class: pick_class(rng) });
+            }
+            8 => {
+                elems.push(Elem::Var { name: names.next(), class: pick_class(rng) });
+                elems.push(Elem::Var { name: names.next(), class: pick_class(rng) });
+            }
+            _ => {
+                push_lit(&mut elems, *rng.pick(&LITS));
+                elems.push(Elem::Var { name: names.next(), class: pick_class(rng) });
+                push_lit(&mut elems, *rng.pick(&LITS));
+            }
+        }
+    }
+    if allow_tail && rng.chance(1, 5) {
+        if rng.chance(3, 4) {
+            push_lit(&mut elems, "/");
+        }
+        elems.push(Elem::Tail { name: "tail".into() });
+    }
+    Pattern { elems }
+}
+
+const HAND: [&str; 40] = [
+    "",
+    "/",
+    "//",
+    "/a",
+    "/a/",
+    "/a/b",
+    "/ab",
+    "a",
+    "/{x}",
+    "/{x}/",
+    "{x}",
+    "/a/{x}",
+    "/{x}/{y}",
+    "/{x}/a/{y}",
+    "/{x}-{y}",
+    "/{x}{y}",
+    "/a{x}",
+    "/{x}b",
+    r"/{x:\d+}",
+    r"/{x:\d*}",
+    r"/{x:[a-z]+}",
+    r"/{x:[^/]*}",
+    r"/{x:[^/]*}/{y:[^/]*}",
+    r"/{x:.*}",
+    r"/{x:.*}/b",
+    r"/{x:.+}/{y}",
+    r"/{x:[ab1]{2}}",
+    r"/{x:[ab1]{2}}{y}",
+    r"/{x:[^/]+?}{y}",
+    r"/{x:[^/]+?}-{y:.*}",
+    r"/{x:a|ab}",
+    r"/{x:a|ab}b",
+    r"/{x:ab|a|}b",
+    r"/{x:[ab-]{1,3}}-{y}",
+    "/{tail}*",
+    "{tail}*",
+    "/a/{tail}*",
+    "/a{tail}*",
+    "/{x}/{tail}*",
+    r"/{x:\d+}{tail}*",
+];
+
+/// The definitions of the exhaustive phase: a fixed part (hand-written corner cases and a
+/// fixed-seed sample of the grammar, each as full and — without tail — as prefix definition, plus
+/// pattern lists) and `extra` seed-dependent ones.
+fn build_defs(seed: u64, extra: usize, fixed_random: usize) -> Vec<Def> {
+    let mut singles: Vec<Pattern> = HAND.iter().map(|s| Pattern::parse(s).expect("hand pattern in grammar")).collect();
+    let mut rng = Rng::derive(0xC10, 1, 1);
+    let mut guard_n = 0;
+    while singles.len() < HAND.len() + fixed_random && guard_n < 100_000 {
+        guard_n += 1;
+        let p = gen_pattern(&mut rng, true);
+        if !singles.contains(&p) {
+            singles.push(p);
+        }
+    }
+    let mut defs = vec![];
+    for p in &singles {
+        defs.push(Def::one(p.clone(), false));
+        if !p.has_tail() {
+            defs.push(Def::one(p.clone(), true));
+        }
+    }
+    // pattern lists (2–4 members), full and prefix; also the degenerate empty list
+    defs.push(Def { pats: vec![], prefix: false });
+    defs.push(Def { pats: vec![], prefix: true });
+    let nlists = fixed_random / 3 + 10;
+    for _ in 0..nlists {
+        defs.push(gen_list(&mut rng, &singles));
+    }
+    // seed-dependent part
+    let mut rng = Rng::derive(seed, 0xC10, 2);
+    for k in 0..extra {
+        if k % 4 == 3 {
+            let pool: Vec<Pattern> = (0..6).map(|_| gen_pattern(&mut rng, true)).collect();
+            defs.push(gen_list(&mut rng, &pool));
+        } else {
+            let prefix = rng.chance(1, 2);
+            let p = gen_pattern(&mut rng, !prefix);
+            defs.push(Def::one(p, prefix));
+        }
+    }
+    defs
+}
+
+fn gen_list(rng: &mut Rng, pool: &[Pattern]) -> Def {
+    let prefix = rng.chance(1, 2);
+    let n = rng.range(2, 4);
+    let mut pats = vec![];
+    let mut tries = 0;
+    while pats.len() < n && tries < 100 {
+        tries += 1;
+        let p = rng.pick(pool).clone();
+        if prefix && p.has_tail() {
+            continue;
+        }
+        pats.push(p);
+    }
+    if pats.len() < 2 {
+        pats = vec![Pattern::lit("/a"), Pattern::lit("/b")];
+    }
+    Def { pats, prefix }
+}
+
+fn make_rdef(def: &Def) -> ResourceDef {
+    let srcs = def.sources();
+    match (srcs.len(), def.prefix) {
+        // a Vec of length 1 becomes Patterns::Single; use the &str constructor for that case
+        (1, false) => ResourceDef::new(srcs[0].as_str()),
+        (1, true) => ResourceDef::prefix(srcs[0].as_str()),
+        (_, false) => ResourceDef::new(actix_router::Patterns::List(srcs)),
+        (_, true) => ResourceDef::prefix(actix_router::Patterns::List(srcs)),
+    }
+}
+
+fn def_sig(def: &Def) -> String {
+    format!("{}[{}]", if def.prefix { "prefix" } else { "new" }, def.sources().join(" | "))
+}
+
+fn def_json(def: &Def) -> Value {
+    json!({"patterns": def.sources(), "prefix": def.prefix})
+}
+
+fn def_from_json(v: &Value) -> Option<Def> {
+    let srcs: Vec<String> = v["patterns"].as_array()?.iter().filter_map(|s| s.as_str().map(|s| s.to_string())).collect();
+    Def::parse(&srcs, v["prefix"].as_bool().unwrap_or(false))
+}
+
+// ------------------------------------------------------------------------------------------------
+// one (definition, path) case
+
+struct Failure {
+    class: &'static str,
+    detail: String,
+}
+
+macro_rules! fail {
+    ($class:expr, $($arg:tt)*) => {
+        return Err(Failure { class: $class, detail: format!($($arg)*) })
+    };
+}
+
+#[derive(Clone, Copy, PartialEq, Eq, Debug)]
+enum Outcome {
+    NoMatch,
+    /// matched; (captures, any empty capture, matched whole path, index in list)
+    Match { ncaps: usize, empty_cap: bool, whole: bool, idx: usize },
+}
+
+/// Compare everything observable about the segments of `p` from index `from` on with `caps`
+/// shifted by `base`.
+fn check_caps(p: &Path<&str>, from: usize, caps: &[(String, usize, usize)], base: usize, what: &str) -> Result<(), Failure> {
+    let full = p.as_str();
+    if p.segment_count() != from + caps.len() {
+        fail!("captures", "{what}: segment_count()={} expected {}", p.segment_count(), from + caps.len());
+    }
+    for (k, ((name, val), (en, a, b))) in p.iter().skip(from).zip(caps.iter()).enumerate() {
+        let (a, b) = (a + base, b + base);
+        if name != en {
+            fail!("captures", "{what}: capture #{k} is named {name:?}, expected {en:?}");
+        }
+        let want = &full[a..b];
+        if val != want {
+            fail!("capture-value", "{what}: {name}={:?}, expected {:?} (bytes {a}..{b})", esc_short(val.as_bytes(), 60), esc_short(want.as_bytes(), 60));
+        }
+        let off = (val.as_ptr() as usize).wrapping_sub(full.as_ptr() as usize);
+        if off != a {
+            fail!("capture-offset", "{what}: {name} is the right text but taken from byte offset {off}, expected {a}");
+        }
+        // Index by position agrees with iter()
+        if &p[from + k] != want {
+            fail!("capture-value", "{what}: path[{}]={:?} expected {:?}", from + k, esc_short(p[from + k].as_bytes(), 60), esc_short(want.as_bytes(), 60));
+        }
+    }
+    Ok(())
+}
+
+fn check_case(def: &Def, rdef: &ResourceDef, path: &str) -> Result<Outcome, Failure> {
+    let exp = def.find(path);
+    let im = rdef.is_match(path);
+    let fm = rdef.find_match(path);
+    let mut p = Path::new(path);
+    let cm = rdef.capture_match_info(&mut p);
+    if im != fm.is_some() || im != cm {
+        fail!("api-disagree", "is_match={im} find_match={fm:?} capture_match_info={cm} (model: {:?})", exp.as_ref().map(|m| m.1.len));
+    }
+    match &exp {
+        None => {
+            if im {
+                fail!("language", "matches (find_match={fm:?}) but the pattern language does not contain this path");
+            }
+            if p.unprocessed() != path || p.segment_count() != 0 {
+                fail!("untouched", "failed capture left unprocessed={:?} segments={}", p.unprocessed(), p.segment_count());
+            }
+            Ok(Outcome::NoMatch)
+        }
+        Some((idx, m)) => {
+            if !im {
+                fail!("language", "does not match, but the pattern language contains this path (member {idx}, length {})", m.len);
+            }
+            if fm != Some(m.len) {
+                fail!("match-len", "find_match={fm:?}, expected {} (member {idx})", m.len);
+            }
+            if p.unprocessed() != &path[m.len..] {
+                fail!("match-len", "unprocessed()={:?} after capture, expected {:?}", esc_short(p.unprocessed().as_bytes(), 60), esc_short(path[m.len..].as_bytes(), 60));
+            }
+            check_caps(&p, 0, &m.caps, 0, "capture_match_info")?;
+            for (n, a, b) in &m.caps {
+                // names are distinct inside a pattern, so get() must find the same value
+                if p.get(n) != Some(&path[*a..*b]) {
+                    fail!("capture-value", "get({n:?})={:?}, expected {:?}", p.get(n), &path[*a..*b]);
+                }
+            }
+            Ok(Outcome::Match {
+                ncaps: m.caps.len(),
+                empty_cap: m.caps.iter().any(|c| c.1 == c.2),
+                whole: m.len == path.len(),
+                idx: *idx,
+            })
+        }
+    }
+}
+
+/// The same definition applied to a `Path` whose first `junk.len()` bytes are already matched.
+fn check_skipped(def: &Def, rdef: &ResourceDef, junk: &str, path: &str) -> Result<(), Failure> {
+    let full = format!("{junk}{path}");
+    let mut p = Path::new(full.as_str());
+    p.skip(junk.len() as u16);
+    if p.unprocessed() != path {
+        fail!("skip", "after skip({}) unprocessed()={:?}", junk.len(), p.unprocessed());
+    }
+    let exp = def.find(path);
+    let cm = rdef.capture_match_info(&mut p);
+    match exp {
+        None => {
+            if cm || p.unprocessed() != path || p.segment_count() != 0 {
+                fail!("skip", "after skip({}): capture={cm} but the remainder does not match", junk.len());
+            }
+        }
+        Some((_, m)) => {
+            if !cm {
+                fail!("skip", "after skip({}): no match, but the remainder matches with length {}", junk.len(), m.len);
+            }
+            if p.unprocessed() != &path[m.len..] {
+                fail!("skip", "after skip({}) and capture: unprocessed()={:?}, expected {:?}", junk.len(), p.unprocessed(), &path[m.len..]);
+            }
+            check_caps(&p, 0, &m.caps, junk.len(), "capture after skip")?;
+        }
+    }
+    Ok(())
+}
+
+/// Prefix definition `d1` followed by `d2` on the remainder, with a rejecting check function tried
+/// first.  Returns (first matched, second matched).
+fn check_chain(d1: &Def, r1: &ResourceDef, d2: &Def, r2: &ResourceDef, path: &str) -> Result<(bool, bool), Failure> {
+    let mut p = Path::new(path);
+    let m1 = d1.find(path);
+    let c1 = r1.capture_match_info(&mut p);
+    if c1 != m1.is_some() {
+        fail!("language", "chain: first definition capture={c1}, model {:?}", m1.as_ref().map(|m| m.1.len));
+    }
+    let (_, m1) = match m1 {
+        Some(m) => m,
+        None => return Ok((false, false)),
+    };
+    check_caps(&p, 0, &m1.caps, 0, "chain first")?;
+    let rest = &path[m1.len..];
+    if p.unprocessed() != rest {
+        fail!("match-len", "chain: unprocessed()={:?} after the prefix, expected {:?}", p.unprocessed(), rest);
+    }
+    let m2 = d2.find(rest);
+    // a rejecting check function: called iff the pattern matches, and the path is left untouched
+    // (what the function itself sees of the path while it runs is not specified, so not compared)
+    let mut seen: Option<()> = None;
+    let rej = r2.capture_match_info_fn(&mut p, |_| {
+        seen = Some(());
+        false
+    });
+    if rej {
+        fail!("check-fn", "chain: capture_match_info_fn returned true although the check function said no");
+    }
+    if seen.is_some() != m2.is_some() {
+        fail!("check-fn", "chain: check function called={} but model match={}", seen.is_some(), m2.is_some());
+    }
+    if p.unprocessed() != rest {
+        fail!("untouched", "chain: rejected capture moved the path to {:?}", p.unprocessed());
+    }
+    check_caps(&p, 0, &m1.caps, 0, "chain after rejected capture")?;
+    // now for real
+    let c2 = r2.capture_match_info(&mut p);
+    if c2 != m2.is_some() {
+        fail!("skip", "chain: second definition on remainder {rest:?}: capture={c2}, model {:?}", m2.as_ref().map(|m| m.1.len));
+    }
+    match m2 {
+        None => {
+            if p.unprocessed() != rest {
+                fail!("untouched", "chain: failed second capture moved the path to {:?}", p.unprocessed());
+            }
+            check_caps(&p, 0, &m1.caps, 0, "chain after failed capture")?;
+            Ok((true, false))
+        }
+        Some((_, m2)) => {
+            if p.unprocessed() != &rest[m2.len..] {
+                fail!("skip", "chain: unprocessed()={:?} after both, expected {:?}", p.unprocessed(), &rest[m2.len..]);
+            }
+            // all captures, the second definition's shifted by the length the first one consumed
+            let mut all = m1.caps.clone();
+            all.extend(m2.caps.iter().map(|(n, a, b)| (n.clone(), a + m1.len, b + m1.len)));
+            check_caps(&p, 0, &all, 0, "chain, after both captures")?;
+            Ok((true, true))
+        }
+    }
+}
+
+// ------------------------------------------------------------------------------------------------
+// path enumeration
+
+const SIGMA: [u8; 5] = [b'/', b'a', b'b', b'1', b'-'];
+
+fn all_paths(max_len: usize) -> Vec<String> {
+    all_paths_over(&SIGMA, max_len)
+}
+
+/// literal text made of regex metacharacters must match itself and nothing else
+const SIGMA_META: [u8; 7] = [b'/', b'a', b'.', b'+', b'(', b'$', b'1'];
+const HAND_META: [&str; 12] = [
+    "/a.a",
+    "/.",
+    "/a+",
+    "/(a",
+    "/$",
+    "/a.{x}",
+    "/{x}.{y}",
+    "/a+{x}",
+    "/({x}",
+    "/${x}",
+    r"/{x:\d+}.{y:\d+}",
+    "/a./{tail}*",
+];
+
+fn all_paths_over(sigma: &[u8], max_len: usize) -> Vec<String> {
+    let mut out = vec![String::new()];
+    let mut start = 0;
+    for _ in 0..max_len {
+        let end = out.len();
+        for i in start..end {
+            for &c in sigma {
+                let mut s = out[i].clone();
+                s.push(c as char);
+                out.push(s);
+            }
+        }
+        start = end;
+    }
+    out
+}
+
+// ------------------------------------------------------------------------------------------------
+// reporting helpers
+
+struct Local {
+    evals: u64,
+    counts: HashMap<&'static str, u64>,
+}
+impl Local {
+    fn new() -> Self {
+        Local { evals: 0, counts: HashMap::new() }
+    }
+    fn bump(&mut self, k: &'static str) {
+        *self.counts.entry(k).or_insert(0) += 1;
+    }
+    fn flush(&mut self, rep: &mut Reporter) {
+        rep.count("evaluations", self.evals);
+        self.evals = 0;
+        for (k, v) in self.counts.drain() {
+            rep.count(k, v);
+        }
+    }
+}
+
+fn report(rep: &mut Reporter, phase: &str, f: Failure, sig: String, replay: Value) {
+    rep.violation(f.class, &sig, &format!("[{phase}] {} — {}", sig, f.detail), replay);
+}
+
+fn outcome_tag(o: Outcome) -> String {
+    match o {
+        Outcome::NoMatch => "no".into(),
+        Outcome::Match { ncaps, empty_cap, whole, idx } => {
+            format!("m{}c{}{}{}", idx, ncaps, if empty_cap { "e" } else { "" }, if whole { "w" } else { "p" })
+        }
+    }
+}
+
+/// run one (def, path) case with panic capture; returns None when a violation was reported
+fn run_case(rep: &mut Reporter, loc: &mut Local, phase: &'static str, def: &Def, rdef: &ResourceDef, path: &str, seen_out: &mut Vec<Outcome>) -> Option<Outcome> {
+    loc.evals += 1;
+    match guard(|| check_case(def, rdef, path)) {
+        Ok(Ok(o)) => {
+            match o {
+                Outcome::NoMatch => loc.bump("cases:no-match"),
+                Outcome::Match { whole, empty_cap, ncaps, idx } => {
+                    loc.bump("cases:match");
+                    if !whole {
+                        loc.bump("cases:match-at-segment-boundary");
+                    }
+                    if empty_cap {
+                        loc.bump("cases:match-with-empty-capture");
+                    }
+                    if ncaps >= 2 {
+                        loc.bump("cases:match-with-2+-captures");
+                    }
+                    if idx > 0 {
+                        loc.bump("cases:match-by-later-list-member");
+                    }
+                }
+            }
+            if !seen_out.contains(&o) {
+                seen_out.push(o);
+            }
+            Some(o)
+        }
+        Ok(Err(mut f)) => {
+            let kind = if def.find(path).is_some() { "model-match" } else { "model-nomatch" };
+            f.detail = format!("path {:?}: {}", esc_short(path.as_bytes(), 80), f.detail);
+            report(rep, phase, f, format!("{} {}", def_sig(def), kind), json!({"phase": "match", "def": def_json(def), "path": esc(path.as_bytes())}));
+            None
+        }
+        Err(p) => {
+            rep.violation(
+                "panic",
+                &format!("{} in {}", def_sig(def), panic_site(&p)),
+                &format!("[{phase}] {} on path {:?}: {p}", def_sig(def), esc_short(path.as_bytes(), 80)),
+                json!({"phase": "match", "def": def_json(def), "path": esc(path.as_bytes())}),
+            );
+            None
+        }
+    }
+}
+
+fn build_rdef(rep: &mut Reporter, def: &Def) -> Option<ResourceDef> {
+    match guard(|| make_rdef(def)) {
+        Ok(r) => Some(r),
+        Err(p) => {
+            rep.violation(
+                "panic",
+                &format!("construct {} in {}", def_sig(def), panic_site(&p)),
+                &format!("constructing {} panicked: {p}", def_sig(def)),
+                json!({"phase": "match", "def": def_json(def), "path": ""}),
+            );
+            None
+        }
+    }
+}
+
+// ------------------------------------------------------------------------------------------------
+// phases
+
+/// A: every definition × every path over SIGMA up to `max_len`.
+fn phase_exhaustive(ctx: &Ctx, rep: &mut Reporter, defs: &[Def], paths: &[String]) {
+    let mut loc = Local::new();
+    let mut complete = true;
+    'outer: for (di, def) in defs.iter().enumerate() {
+        let rdef = match build_rdef(rep, def) {
+            Some(r) => r,
+            None => {
+                complete = false;
+                continue;
+            }
+        };
+        let mut outs = vec![];
+        let mut bad = 0;
+        for (pi, path) in paths.iter().enumerate() {
+            if !ctx.mine((pi + di) as u64) {
+                continue;
+            }
+            if loc.evals % 8192 == 8191 {
+                loc.flush(rep);
+                if ctx.out_of_time() {
+                    complete = false;
+                    break 'outer;
+                }
+            }
+            let o = match run_case(rep, &mut loc, "exhaustive", def, &rdef, path, &mut outs) {
+                Some(o) => o,
+                None => {
+                    bad += 1;
+                    if bad >= 3 {
+                        break; // one broken definition must not flood the log
+                    }
+                    continue;
+                }
+            };
+            // every 3rd matching case (and a few others) again behind an already-matched part
+            if (o != Outcome::NoMatch && pi % 3 == 0) || pi % 61 == 0 {
+                loc.evals += 1;
+                loc.bump("cases:after-skip");
+                let junk = if pi % 2 == 0 { "/zz" } else { "/q/€" };
+                match guard(|| check_skipped(def, &rdef, junk, path)) {
+                    Ok(Ok(())) => {}
+                    Ok(Err(mut f)) => {
+                        f.detail = format!("path {:?} behind {:?}: {}", esc_short(path.as_bytes(), 80), junk, f.detail);
+                        report(rep, "skip", f, def_sig(def), json!({"phase": "skip", "def": def_json(def), "junk": junk, "path": esc(path.as_bytes())}))
+                    }
+                    Err(p) => rep.violation("panic", &format!("skip {} in {}", def_sig(def), panic_site(&p)), &p, json!({"phase": "skip", "def": def_json(def), "junk": junk, "path": esc(path.as_bytes())})),
+                }
+            }
+        }
+        let shape = def.shape();
+        for o in outs {
+            rep.sig(&format!("A|{}|{}", shape, outcome_tag(o)));
+        }
+    }
+    loc.flush(rep);
+    rep.count("defs:exhaustive-phase", if ctx.shard == 0 { defs.len() as u64 } else { 0 });
+    rep.exhaustive("all paths over {/,a,b,1,-} up to the length bound x all definitions of the phase", complete);
+}
+
+/// B: prefix definition followed by a second definition on the remainder.
+fn phase_chain(ctx: &Ctx, rep: &mut Reporter, defs: &[Def], paths: &[String], npairs: u64) {
+    let prefixes: Vec<&Def> = defs.iter().filter(|d| d.prefix && !d.pats.is_empty()).collect();
+    let mut loc = Local::new();
+    let mut rng = Rng::derive(ctx.seed, 0xC10B, 0);
+    for k in 0..npairs {
+        let d1 = (*rng.pick(&prefixes)).clone();
+        let d2 = rng.pick(defs).clone();
+        if !ctx.mine(k) {
+            continue;
+        }
+        if ctx.out_of_time() {
+            break;
+        }
+        let (r1, r2) = match (build_rdef(rep, &d1), build_rdef(rep, &d2)) {
+            (Some(a), Some(b)) => (a, b),
+            _ => continue,
+        };
+        let mut both = false;
+        let mut first_only = false;
+        for path in paths {
+            loc.evals += 1;
+            match guard(|| check_chain(&d1, &r1, &d2, &r2, path)) {
+                Ok(Ok((a, b))) => {
+                    if a && b {
+                        loc.bump("chain:both-matched");
+                        both = true;
+                    } else if a {
+                        loc.bump("chain:first-only");
+                        first_only = true;
+                    } else {
+                        loc.bump("chain:none");
+                    }
+                }
+                Ok(Err(mut f)) => {
+                    let rp = json!({"phase": "chain", "d1": def_json(&d1), "d2": def_json(&d2), "path": esc(path.as_bytes())});
+                    f.detail = format!("path {:?}: {}", esc_short(path.as_bytes(), 80), f.detail);
+                    report(rep, "chain", f, format!("{} then {}", def_sig(&d1), def_sig(&d2)), rp);
+                    break;
+                }
+                Err(p) => {
+                    let rp = json!({"phase": "chain", "d1": def_json(&d1), "d2": def_json(&d2), "path": esc(path.as_bytes())});
+                    rep.violation("panic", &format!("chain {} then {} in {}", def_sig(&d1), def_sig(&d2), panic_site(&p)), &p, rp);
+                    break;
+                }
+            }
+        }
+        rep.sig(&format!("B|{}>{}|{}{}", d1.shape(), d2.shape(), both, first_only));
+        loc.flush(rep);
+    }
+}
+
+/// C: `Router::recognize` = first registered definition that matches.
+fn phase_router(ctx: &Ctx, rep: &mut Reporter, defs: &[Def], paths: &[String], nrouters: u64) {
+    let usable: Vec<&Def> = defs.iter().filter(|d| !d.pats.is_empty()).collect();
+    let mut loc = Local::new();
+    let mut rng = Rng::derive(ctx.seed, 0xC10C, 0);
+    for k in 0..nrouters {
+        let n = rng.range(2, 6);
+        let table: Vec<Def> = (0..n).map(|_| (*rng.pick(&usable)).clone()).collect();
+        if !ctx.mine(k) {
+            continue;
+        }
+        if ctx.out_of_time() {
+            break;
+        }
+        let built = guard(|| {
+            let mut b = Router::<usize>::build();
+            for (i, d) in table.iter().enumerate() {
+                let mut rd = make_rdef(d);
+                rd.set_id(100 + i as u16);
+                b.rdef(rd, i);
+            }
+            b.finish()
+        });
+        let router = match built {
+            Ok(r) => r,
+            Err(p) => {
+                rep.violation("panic", &format!("router build in {}", panic_site(&p)), &p, json!({"phase": "router", "table": table.iter().map(def_json).collect::<Vec<_>>(), "path": ""}));
+                continue;
+            }
+        };
+        let mut winners = vec![false; n + 1];
+        for path in paths {
+            loc.evals += 1;
+            let want = table.iter().enumerate().find_map(|(i, d)| d.find(path).map(|(_, m)| (i, m)));
+            let res = guard(|| {
+                let mut p = Path::new(path.as_str());
+                let got = router.recognize(&mut p).map(|(v, id)| (*v, id.0));
+                (got, p.unprocessed().to_string(), p.iter().map(|(a, b)| (a.to_string(), b.to_string())).collect::<Vec<_>>())
+            });
+            let rp = || json!({"phase": "router", "table": table.iter().map(def_json).collect::<Vec<_>>(), "path": esc(path.as_bytes())});
+            let sigs = || table.iter().map(def_sig).collect::<Vec<_>>().join(" ; ");
+            match res {
+                Err(p) => {
+                    rep.violation("panic", &format!("router {} in {}", sigs(), panic_site(&p)), &p, rp());
+                    break;
+                }
+                Ok((got, unproc, segs)) => {
+                    let want_id = want.as_ref().map(|(i, _)| (*i, 100 + *i as u16));
+                    if got != want_id {
+                        rep.violation(
+                            "router-first-match",
+                            &format!("router {}", sigs()),
+                            &format!("router [{}] on {:?}: recognized {:?}, the first registered match is {:?}", sigs(), path, got, want_id),
+                            rp(),
+                        );
+                        break;
+                    }
+                    match &want {
+                        None => {
+                            winners[n] = true;
+                            loc.bump("router:no-route");
+                            if unproc != *path || !segs.is_empty() {
+                                rep.violation("untouched", &format!("router {}", sigs()), &format!("no route matched {:?} but the path was modified", path), rp());
+                                break;
+                            }
+                        }
+                        Some((i, m)) => {
+                            winners[*i] = true;
+                            if *i > 0 {
+                                loc.bump("router:matched-later-route");
+                            } else {
+                                loc.bump("router:matched-first-route");
+                            }
+                            let want_segs: Vec<(String, String)> = m.caps.iter().map(|(n, a, b)| (n.clone(), path[*a..*b].to_string())).collect();
+                            if unproc != path[m.len..] || segs != want_segs {
+                                rep.violation(
+                                    "capture-value",
+                                    &format!("router {}", sigs()),
+                                    &format!("router route {i} on {:?}: unprocessed={:?} segments={:?}, expected {:?} / {:?}", path, unproc, segs, &path[m.len..], want_segs),
+                                    rp(),
+                                );
+                                break;
+                            }
+                        }
+                    }
+                }
+            }
+        }
+        rep.sig(&format!("C|{}|{:?}", table.iter().map(|d| d.shape()).collect::<Vec<_>>().join(";"), winners));
+        loc.flush(rep);
+    }
+}
+
+/// sample members of a class's language
+fn class_values(c: &Class) -> &'static [&'static str] {
+    match c.tag {
+        "seg" => &["a", "ab", "1", "a-b", "-", "é", "b1"],
+        "d+" => &["1", "11", "7"],
+        "d*" => &["", "1", "11"],
+        "az+" => &["a", "ab", "ba"],
+        "ns*" => &["", "a", "a-1"],
+        ".*" => &["", "a", "a/b", "/", "a\nb"],
+        ".+" => &["a", "a/b", "/", "1/"],
+        "ab1{2}" => &["ab", "11", "ba"],
+        "ns+?" => &["a", "ab", "1-"],
+        "a|ab" => &["a", "ab"],
+        "ab|a|" => &["ab", "a", ""],
+        "ab-{1,3}" => &["a", "ab-", "-", "a-b"],
+        _ => &[],
+    }
+}
+
+const TAIL_VALUES: [&str; 5] = ["", "a", "a/b", "/", "a/b/€\n"];
+
+/// D: resource_path_from_iter / _from_map round trip.
+fn phase_roundtrip(ctx: &Ctx, rep: &mut Reporter, defs: &[Def], combos_per_def: usize) {
+    let mut loc = Local::new();
+    for (di, def) in defs.iter().enumerate() {
+        if !ctx.mine(di as u64) || def.pats.is_empty() {
+            continue;
+        }
+        if ctx.out_of_time() {
+            break;
+        }
+        let rdef = match build_rdef(rep, def) {
+            Some(r) => r,
+            None => continue,
+        };
+        let p0 = &def.pats[0];
+        let slots: Vec<&'static [&'static str]> = p0
+            .elems
+            .iter()
+            .filter_map(|e| match e {
+                Elem::Var { class, .. } => Some(class_values(class)),
+                Elem::Tail { .. } => Some(&TAIL_VALUES[..]),
+                Elem::Lit(_) => None,
+            })
+            .collect();
+        let total: usize = slots.iter().map(|s| s.len()).product::<usize>().max(1);
+        let mut rng = Rng::derive(ctx.seed, 0xC10D, di as u64);
+        let n = total.min(combos_per_def);
+        let (mut unique, mut ambiguous) = (0u64, 0u64);
+        for k in 0..n {
+            // enumerate completely when the product is small, sample otherwise
+            let mut code = if total <= combos_per_def { k } else { rng.below(total) };
+            let values: Vec<&str> = slots
+                .iter()
+                .map(|s| {
+                    let v = s[code % s.len()];
+                    code /= s.len();
+                    v
+                })
+                .collect();
+            loc.evals += 1;
+            let r = guard(|| roundtrip_case(def, &rdef, &values));
+            let rp = json!({"phase": "roundtrip", "def": def_json(def), "values": values});
+            match r {
+                Ok(Ok(true)) => unique += 1,
+                Ok(Ok(false)) => ambiguous += 1,
+                Ok(Err(f)) => {
+                    report(rep, "roundtrip", f, def_sig(def), rp);
+                    break;
+                }
+                Err(p) => {
+                    rep.violation("panic", &format!("roundtrip {} in {}", def_sig(def), panic_site(&p)), &p, rp);
+                    break;
+                }
+            }
+        }
+        loc.counts.entry("roundtrip:unique-decomposition").and_modify(|v| *v += unique).or_insert(unique);
+        loc.counts.entry("roundtrip:ambiguous-decomposition").and_modify(|v| *v += ambiguous).or_insert(ambiguous);
+        rep.sig(&format!("D|{}|{}|{}", def.shape(), unique > 0, ambiguous > 0));
+        loc.flush(rep);
+    }
+}
+
+/// Ok(true): decomposition unique and values came back; Ok(false): ambiguous, model's result held.
+fn roundtrip_case(def: &Def, rdef: &ResourceDef, values: &[&str]) -> Result<bool, Failure> {
+    let p0 = &def.pats[0];
+    // expected text: literal pieces and values in order
+    let mut want = String::new();
+    let mut vi = 0;
+    for e in &p0.elems {
+        match e {
+            Elem::Lit(l) => want.push_str(l),
+            _ => {
+                want.push_str(values[vi]);
+                vi += 1;
+            }
+        }
+    }
+    let mut built = String::new();
+    if !rdef.resource_path_from_iter(&mut built, values.iter()) {
+        fail!("roundtrip-build", "resource_path_from_iter returned false with {} values for {} dynamic parts", values.len(), vi);
+    }
+    if built != want {
+        fail!("roundtrip-build", "resource_path_from_iter built {:?}, expected {:?}", built, want);
+    }
+    let names = p0.names();
+    let map: HashMap<&str, &str> = names.iter().copied().zip(values.iter().copied()).collect();
+    let mut built2 = String::new();
+    if !rdef.resource_path_from_map(&mut built2, &map) || built2 != want {
+        fail!("roundtrip-build", "resource_path_from_map built {:?}, expected {:?}", built2, want);
+    }
+    if !values.is_empty() {
+        let mut s = String::new();
+        if rdef.resource_path_from_iter(&mut s, values[..values.len() - 1].iter()) {
+            fail!("roundtrip-build", "resource_path_from_iter returned true with one value missing (built {:?})", s);
+        }
+    }
+    // the built path is in the language of pattern 0 by construction
+    let mut p = Path::new(want.as_str());
+    if !rdef.capture_match_info(&mut p) || !rdef.is_match(&want) || rdef.find_match(&want).is_none() {
+        fail!("roundtrip-nomatch", "path {:?} built from values {:?} does not match its own pattern", want, values);
+    }
+    let (idx, m) = match def.find(&want) {
+        Some(x) => x,
+        None => fail!("model-gap", "model does not accept {:?} built from values {:?}", want, values),
+    };
+    check_caps(&p, 0, &m.caps, 0, "roundtrip")?;
+    let unique = idx == 0 && p0.count(&want, def.prefix, 2) == 1;
+    if unique {
+        let got: Vec<&str> = p.iter().map(|(_, v)| v).collect();
+        if got != values || p.unprocessed() != "" {
+            fail!("roundtrip-values", "values {:?} built {:?}, which captures {:?} (rest {:?}) although the decomposition is unique", values, want, got, p.unprocessed());
+        }
+    }
+    Ok(unique)
+}
+
+// ---- E: long paths ------------------------------------------------------------------------------
+
+const LONG_DEFS: [(&str, bool); 12] = [
+    ("/{a}/{b}", false),
+    ("/{a}/{b}/{c}", false),
+    ("/{a}/{t}*", false),
+    ("/{t}*", false),
+    ("/{a}", true),
+    ("/{a}/{b}", true),
+    (r"/x{a:[^/]*}/{b:\d+}", false),
+    (r"/{a:[a-z]+}{b:\d*}/{c}", true),
+    (r"/{a}/{b:.*}", false),
+    (r"/{a:[^/]+?}/{b}", true),
+    ("/{a}-{b}/{c}", false),
+    ("", true),
+];
+
+const LONG_LENS: [usize; 10] = [65534, 65533, 65532, 65000, 49152, 32769, 32768, 32767, 16384, 300];
+
+fn fill(rng: &mut Rng, out: &mut String, mut n: usize, kind: usize) {
+    // runs made of one class so that custom classes have long matches too
+    while n > 0 {
+        let c = match kind {
+            0 => *rng.pick(&['a', 'b', 'z', 'q']),
+            1 => *rng.pick(&['0', '1', '9']),
+            2 => *rng.pick(&['a', '1', '-', '.', '_', '~']),
+            _ => *rng.pick(&['a', 'é', '€', '1', '\n', '😀', '-']),
+        };
+        if c.len_utf8() > n {
+            out.push('a');
+            n -= 1;
+        } else {
+            out.push(c);
+            n -= c.len_utf8();
+        }
+    }
+}
+
+/// A path of exactly `total` bytes made of `/`-separated segments whose boundaries sit where the
+/// offsets are interesting: a very long first or middle segment and short ones at the far end.
+fn long_path(rng: &mut Rng, total: usize, pat: &Pattern) -> String {
+    let mut s = String::with_capacity(total + 8);
+    let nseg = rng.range(1, 4);
+    // lengths of the last segments are tiny so that captures start/end near `total`
+    let mut tails: Vec<usize> = (1..nseg).map(|_| rng.range(0, 6)).collect();
+    if rng.chance(1, 3) && !tails.is_empty() {
+        let i = rng.below(tails.len());
+        tails[i] = rng.range(0, total / 3);
+    }
+    let used: usize = tails.iter().sum::<usize>() + nseg;
+    let first = total.saturating_sub(used);
+    let mut lens = vec![first];
+    lens.extend(tails);
+    // literal text the pattern expects right after a slash, now and then
+    let lead: Option<&str> = pat.elems.iter().find_map(|e| match e {
+        Elem::Lit(l) if l.len() > 1 => Some(l.trim_start_matches('/')),
+        _ => None,
+    });
+    for (i, &l) in lens.iter().enumerate() {
+        s.push('/');
+        let mut l = l;
+        if i == 0 {
+            if let Some(ld) = lead {
+                if l >= ld.len() && rng.chance(3, 4) {
+                    s.push_str(ld);
+                    l -= ld.len();
+                }
+            }
+        }
+        let kind = rng.below(4);
+        if kind == 0 && l > 4 && rng.chance(1, 2) {
+            // letters then digits: exercises `[a-z]+\d*`
+            let d = rng.range(0, l.min(5));
+            fill(rng, &mut s, l - d, 0);
+            fill(rng, &mut s, d, 1);
+        } else {
+            fill(rng, &mut s, l, kind);
+        }
+        if i == 0 && l > 10 && rng.chance(1, 4) {
+            // a dash somewhere for `{a}-{b}`
+            let pos = rng.range(1, s.len() - 1);
+            if s.is_char_boundary(pos) && s.is_char_boundary(pos + 1) && s.as_bytes()[pos] != b'/' {
+                s.replace_range(pos..pos + 1, "-");
+            }
+        }
+    }
+    // exact length
+    while s.len() > total {
+        s.pop();
+    }
+    while s.len() < total {
+        s.push('a');
+    }
+    s
+}
+
+fn phase_long(ctx: &Ctx, rep: &mut Reporter, n: u64) {
+    let defs: Vec<Def> = LONG_DEFS.iter().map(|(s, p)| Def::one(Pattern::parse(s).unwrap(), *p)).collect();
+    let rdefs: Vec<Option<ResourceDef>> = defs.iter().map(|d| build_rdef(rep, d)).collect();
+    let mut loc = Local::new();
+    for k in 0..n {
+        if ctx.out_of_time() {
+            break;
+        }
+        let case = k * ctx.nshards + ctx.shard;
+        let tgen = std::time::Instant::now();
+        let (path, di, di2) = long_case(ctx.seed, case);
+        let (def, rdef) = match &rdefs[di] {
+            Some(r) => (&defs[di], r),
+            None => continue,
+        };
+        let mut outs = vec![];
+        let seed = ctx.seed;
+        let ok = run_case_long(rep, &mut loc, def, rdef, &path, &mut outs, case, seed);
+        if !ok {
+            continue;
+        }
+        rep.max("long:path-bytes", path.len() as u64);
+        if let Some((_, m)) = def.find(&path) {
+            for c in &m.caps {
+                rep.max("long:capture-end-offset", c.2 as u64);
+                rep.max("long:capture-start-offset", c.1 as u64);
+            }
+            rep.max("long:matched-len", m.len as u64);
+        }
+        // prefix definitions: continue with a second definition on the remainder
+        if def.prefix {
+            if let Some(r2) = &rdefs[di2] {
+                loc.evals += 1;
+                match guard(|| check_chain(def, rdef, &defs[di2], r2, &path)) {
+                    Ok(Ok((a, b))) => {
+                        if a && b {
+                            loc.bump("long:chain-both-matched");
+                        }
+                    }
+                    Ok(Err(f)) => report(rep, "long-chain", f, format!("long: {} then {}", def_sig(def), def_sig(&defs[di2])), json!({"phase": "long", "case": case, "seed": seed})),
+                    Err(p) => rep.violation("panic", &format!("long chain {} in {}", def_sig(def), panic_site(&p)), &p, json!({"phase": "long", "case": case, "seed": seed})),
+                }
+            }
+        }
+        if std::env::var("AVMON_TIMING").is_ok() && tgen.elapsed().as_millis() > 100 {
+            let t0 = std::time::Instant::now();
+            let m = def.find(&path).is_some();
+            let t1 = t0.elapsed();
+            let _ = rdef.find_match(&path);
+            let t2 = t0.elapsed() - t1;
+            let _ = rdef.is_match(&path);
+            let t3 = t0.elapsed() - t1 - t2;
+            eprintln!("[c10-long] slow case {case}: {} on {} bytes took {:?} (model {:?} -> {m}, find_match {:?}, is_match {:?}) dashes={}", def_sig(def), path.len(), tgen.elapsed(), t1, t2, t3, path.matches('-').count());
+        }
+        let lenclass = match path.len() {
+            65532..=65534 => "max",
+            32767..=32769 => "i16",
+            300 => "short",
+            _ => "mid",
+        };
+        for o in outs {
+            rep.sig(&format!("E|{}|{}|{}", def.shape(), lenclass, outcome_tag(o)));
+        }
+        if k % 16 == 15 {
+            loc.flush(rep);
+        }
+    }
+    loc.flush(rep);
+}
+
+/// deterministic long case number `case` of seed `seed`: (path, definition index, second index)
+fn long_case(seed: u64, case: u64) -> (String, usize, usize) {
+    let mut rng = Rng::derive(seed, 0xC10E, case);
+    let di = rng.below(LONG_DEFS.len());
+    let di2 = rng.below(LONG_DEFS.len());
+    let total = if rng.chance(3, 4) { *rng.pick(&LONG_LENS) } else { rng.range(1, 65534) };
+    let pat = Pattern::parse(LONG_DEFS[di].0).unwrap();
+    (long_path(&mut rng, total, &pat), di, di2)
+}
+
+fn run_case_long(rep: &mut Reporter, loc: &mut Local, def: &Def, rdef: &ResourceDef, path: &str, outs: &mut Vec<Outcome>, case: u64, seed: u64) -> bool {
+    loc.evals += 1;
+    match guard(|| check_case(def, rdef, path)) {
+        Ok(Ok(o)) => {
+            match o {
+                Outcome::NoMatch => loc.bump("long:no-match"),
+                Outcome::Match { .. } => loc.bump("long:match"),
+            }
+            outs.push(o);
+            true
+        }
+        Ok(Err(f)) => {
+            report(rep, "long", f, format!("long: {} len-class {}", def_sig(def), path.len() / 8192), json!({"phase": "long", "case": case, "seed": seed}));
+            false
+        }
+        Err(p) => {
+            rep.violation("panic", &format!("long: {} in {}", def_sig(def), panic_site(&p)), &format!("path of {} bytes: {p}", path.len()), json!({"phase": "long", "case": case, "seed": seed}));
+            false
+        }
+    }
+}
+
+// ---- F: percent-decoder ---------------------------------------------------------------------------
+
+const QSIGMA: [u8; 10] = [b'%', b'2', b'F', b'f', b'4', b'1', b'G', b'/', b'a', 0xFF];
+const PROTECTED_SETS: [&[u8]; 5] = [b"%/+", b"", b"/", b"+%", b"A/"];
+
+fn quoter_case(q: &Quoter, protected: &[u8], input: &[u8]) -> Result<pct_decode::Decoded, Failure> {
+    let got = q.requote(input);
+    let d = pct_decode::decode(input, protected);
+    let want = if d.decoded == 0 { None } else { Some(d.out.clone()) };
+    if got != want {
+        let class = match (&got, &want) {
+            (Some(_), None) => "quoter-none",
+            (None, Some(_)) => "quoter-none",
+            _ => {
+                if d.kept_protected > 0 {
+                    "quoter-protected"
+                } else {
+                    "quoter-decode"
+                }
+            }
+        };
+        fail!(class, "requote({:?}) with protected {:?} = {:?}, expected {:?}", esc_short(input, 80), esc(protected), got.as_ref().map(|g| esc_short(g, 80)), want.as_ref().map(|g| esc_short(g, 80)));
+    }
+    Ok(d)
+}
+
+fn quoter_sig(d: &pct_decode::Decoded) -> String {
+    format!("d{}p{}i{}", d.decoded.min(3), d.kept_protected.min(2), d.invalid.min(2))
+}
+
+fn phase_quoter(ctx: &Ctx, rep: &mut Reporter, max_len: usize, nrandom: u64) {
+    let quoters: Vec<Quoter> = PROTECTED_SETS.iter().map(|p| Quoter::new(b"", p)).collect();
+    let mut loc = Local::new();
+    let mut complete = true;
+    let mut idx = 0u64;
+    let mut buf: Vec<u8> = Vec::with_capacity(max_len);
+    'outer: for len in 0..=max_len {
+        let total = (QSIGMA.len() as u64).pow(len as u32);
+        for code in 0..total {
+            idx += 1;
+            if !ctx.mine(idx) {
+                continue;
+            }
+            if idx % 65536 < ctx.nshards && ctx.out_of_time() {
+                complete = false;
+                break 'outer;
+            }
+            buf.clear();
+            let mut c = code;
+            for _ in 0..len {
+                buf.push(QSIGMA[(c % 10) as usize]);
+                c /= 10;
+            }
+            for (qi, q) in quoters.iter().enumerate() {
+                loc.evals += 1;
+                match guard(|| quoter_case(q, PROTECTED_SETS[qi], &buf)) {
+                    Ok(Ok(d)) => {
+                        if d.decoded > 0 {
+                            loc.bump("quoter:inputs-with-decoded-escape");
+                        }
+                        if d.kept_protected > 0 {
+                            loc.bump("quoter:inputs-with-protected-escape-kept");
+                        }
+                        if d.invalid > 0 {
+                            loc.bump("quoter:inputs-with-invalid-escape");
+                        }
+                        if d.decoded + d.kept_protected + d.invalid > 0 && code % 97 == 0 {
+                            rep.sig(&format!("F|{}|{}", qi, quoter_sig(&d)));
+                        }
+                    }
+                    Ok(Err(f)) => {
+                        let sig = format!("protected={:?} {}", esc(PROTECTED_SETS[qi]), f.class);
+                        report(rep, "quoter", f, sig, json!({"phase": "quoter", "protected": esc(PROTECTED_SETS[qi]), "input": esc(&buf)}));
+                    }
+                    Err(p) => rep.violation("panic", &format!("quoter in {}", panic_site(&p)), &p, json!({"phase": "quoter", "protected": esc(PROTECTED_SETS[qi]), "input": esc(&buf)})),
+                }
+            }
+        }
+    }
+    rep.exhaustive("all byte strings over {%,2,F,f,4,1,G,/,a,0xFF} up to the length bound x 5 protected sets (Quoter)", complete);
+
+    // random: long inputs, all 256 escape values in both hex cases, random protected sets
+    for k in 0..nrandom {
+        if ctx.out_of_time() {
+            break;
+        }
+        let case = k * ctx.nshards + ctx.shard;
+        let (protected, input) = quoter_random_case(ctx.seed, case);
+        loc.evals += 1;
+        let r = guard(|| {
+            let q = Quoter::new(b"", &protected);
+            quoter_case(&q, &protected, &input)
+        });
+        match r {
+            Ok(Ok(d)) => {
+                loc.bump("quoter:random-inputs");
+                rep.max("quoter:input-bytes", input.len() as u64);
+                rep.sig(&format!("Fr|{}|{}", protected.len().min(3), quoter_sig(&d)));
+            }
+            Ok(Err(f)) => {
+                let sig = format!("random {}", f.class);
+                report(rep, "quoter", f, sig, json!({"phase": "quoter", "protected": esc(&protected), "input": esc(&input)}));
+            }
+            Err(p) => rep.violation("panic", &format!("quoter in {}", panic_site(&p)), &p, json!({"phase": "quoter", "protected": esc(&protected), "input": esc(&input)})),
+        }
+    }
+    loc.flush(rep);
+}
+
+fn quoter_random_case(seed: u64, case: u64) -> (Vec<u8>, Vec<u8>) {
+    let mut rng = Rng::derive(seed, 0xC10F, case);
+    let np = rng.below(6);
+    let mut protected: Vec<u8> = (0..np).map(|_| *rng.pick(b"%/+ aA-.~:?#[]@!$&'()*,;=\x00\x7f")).collect();
+    protected.dedup();
+    let len = if rng.chance(1, 20) { rng.range(1000, 70000) } else { rng.range(0, 120) };
+    let mut input = Vec::with_capacity(len + 3);
+    while input.len() < len {
+        match rng.below(10) {
+            0..=3 => {
+                // a valid escape, often of a protected byte or of its neighbour
+                let b = if !protected.is_empty() && rng.chance(1, 2) {
+                    let p = *rng.pick(&protected);
+                    if rng.chance(1, 4) {
+                        p.wrapping_add(1)
+                    } else if rng.chance(1, 8) {
+                        p | 0x80
+                    } else {
+                        p
+                    }
+                } else {
+                    rng.next() as u8
+                };
+                let s = if rng.chance(1, 2) { format!("%{:02X}", b) } else { format!("%{:02x}", b) };
+                input.extend_from_slice(s.as_bytes());
+            }
+            4 => {
+                const BAD: [&[u8]; 9] = [b"%", b"%%", b"%2", b"%G1", b"%1G", b"%+1", b"% 1", b"%-1", b"%\xff\xff"];
+                input.extend_from_slice(*rng.pick(&BAD));
+            }
+            5 => input.push(rng.next() as u8),
+            _ => input.push(*rng.pick(b"abc/+%25")),
+        }
+    }
+    (protected, input)
+}
+
+/// G: `Url` + `Path<Url>`: routing sees the partially decoded path; the deserializer decodes fully.
+fn phase_url(ctx: &Ctx, rep: &mut Reporter, defs: &[Def], n: u64) {
+    const TOK: [&str; 16] = ["/", "a", "b", "1", "-", "%41", "%61", "%2F", "%2f", "%25", "%2B", "%31", "%C3%A9", "%FF", "%2", "%zz"];
+    let usable: Vec<&Def> = defs.iter().filter(|d| !d.pats.is_empty()).collect();
+    let mut loc = Local::new();
+    let mut rdefs: HashMap<usize, ResourceDef> = HashMap::new();
+    for k in 0..n {
+        if ctx.out_of_time() {
+            break;
+        }
+        let case = k * ctx.nshards + ctx.shard;
+        let mut rng = Rng::derive(ctx.seed, 0xC106, case);
+        let di = rng.below(usable.len());
+        let def = usable[di].clone();
+        let ntok = rng.range(0, 7);
+        let mut raw = String::from("/");
+        for _ in 0..ntok {
+            raw.push_str(*rng.pick(&TOK));
+        }
+        let rp = json!({"phase": "url", "def": def_json(&def), "raw": raw});
+        loc.evals += 1;
+        let res = guard(|| {
+            if !rdefs.contains_key(&di) {
+                rdefs.insert(di, make_rdef(&def));
+            }
+            url_case(&def, &rdefs[&di], &raw)
+        });
+        match res {
+            Ok(Ok(Some(tag))) => {
+                loc.bump("url:cases");
+                rep.sig(&format!("G|{}|{}", def.shape(), tag));
+            }
+            Ok(Ok(None)) => loc.bump("url:uri-rejected-by-http-crate"),
+            Ok(Err(f)) => report(rep, "url", f, format!("url {}", def_sig(&def)), rp),
+            Err(p) => rep.violation("panic", &format!("url {} in {}", def_sig(&def), panic_site(&p)), &p, rp),
+        }
+    }
+    loc.flush(rep);
+}
+
+fn url_case(def: &Def, rdef: &ResourceDef, raw: &str) -> Result<Option<String>, Failure> {
+    let uri: http::Uri = match raw.parse() {
+        Ok(u) => u,
+        Err(_) => return Ok(None),
+    };
+    if uri.path() != raw {
+        return Ok(None);
+    }
+    let view = pct_decode::path_view(raw);
+    let url = Url::new(uri);
+    if url.path() != view {
+        fail!("url-view", "Url::new({raw:?}).path()={:?}, expected {:?}", url.path(), view);
+    }
+    let mut p = Path::new(url);
+    let cm = rdef.capture_match_info(&mut p);
+    let exp = def.find(&view);
+    if cm != exp.is_some() {
+        fail!("language", "Path<Url> of {raw:?} (view {view:?}): capture={cm}, model {:?}", exp.as_ref().map(|m| m.1.len));
+    }
+    let (_, m) = match exp {
+        Some(m) => m,
+        None => return Ok(Some("no".into())),
+    };
+    let got: Vec<(String, String)> = p.iter().map(|(a, b)| (a.to_string(), b.to_string())).collect();
+    let want: Vec<(String, String)> = m.caps.iter().map(|(n, a, b)| (n.clone(), view[*a..*b].to_string())).collect();
+    if got != want || p.unprocessed() != &view[m.len..] {
+        fail!("capture-value", "Path<Url> of {raw:?}: segments {:?} rest {:?}, expected {:?} rest {:?}", got, p.unprocessed(), want, &view[m.len..]);
+    }
+    // the deserializer decodes each value completely (protected escapes included)
+    let mut tag = format!("m{}", want.len());
+    if !want.is_empty() {
+        let loaded: Result<Vec<String>, _> = p.load();
+        let full: Vec<String> = want.iter().map(|(_, v)| pct_decode::full_view(v)).collect();
+        match loaded {
+            Ok(l) if l == full => {
+                if full.iter().zip(want.iter()).any(|(f, w)| *f != w.1) {
+                    tag.push_str("+deser-decoded");
+                }
+            }
+            other => fail!("deserialize", "Path<Url> of {raw:?}: load::<Vec<String>>()={:?}, expected {:?}", other, full),
+        }
+    }
+    Ok(Some(tag))
+}
+
+// ------------------------------------------------------------------------------------------------
+// replay
+
+fn replay(rep: &mut Reporter, rp: &Value) {
+    rep.eval();
+    rep.sig("replay");
+    rep.sig("replay2");
+    let path = String::from_utf8_lossy(&unesc(rp["path"].as_str().unwrap_or(""))).into_owned();
+    let mut loc = Local::new();
+    match rp["phase"].as_str().unwrap_or("") {
+        "match" => {
+            if let Some(def) = def_from_json(&rp["def"]) {
+                if let Some(rdef) = build_rdef(rep, &def) {
+                    run_case(rep, &mut loc, "replay", &def, &rdef, &path, &mut vec![]);
+                }
+            }
+        }
+        "skip" => {
+            if let Some(def) = def_from_json(&rp["def"]) {
+                if let Some(rdef) = build_rdef(rep, &def) {
+                    let junk = rp["junk"].as_str().unwrap_or("/zz");
+                    match guard(|| check_skipped(&def, &rdef, junk, &path)) {
+                        Ok(Ok(())) => {}
+                        Ok(Err(f)) => report(rep, "skip", f, def_sig(&def), rp.clone()),
+                        Err(p) => rep.violation("panic", &format!("skip {} in {}", def_sig(&def), panic_site(&p)), &p, rp.clone()),
+                    }
+                }
+            }
+        }
+        "chain" => {
+            if let (Some(d1), Some(d2)) = (def_from_json(&rp["d1"]), def_from_json(&rp["d2"])) {
+                if let (Some(r1), Some(r2)) = (build_rdef(rep, &d1), build_rdef(rep, &d2)) {
+                    match guard(|| check_chain(&d1, &r1, &d2, &r2, &path)) {
+                        Ok(Ok(_)) => {}
+                        Ok(Err(f)) => report(rep, "chain", f, format!("{} then {}", def_sig(&d1), def_sig(&d2)), rp.clone()),
+                        Err(p) => rep.violation("panic", &format!("chain {} then {} in {}", def_sig(&d1), def_sig(&d2), panic_site(&p)), &p, rp.clone()),
+                    }
+                }
+            }
+        }
+        "router" => {
+            let table: Vec<Def> = rp["table"].as_array().map(|a| a.iter().filter_map(def_from_json).collect()).unwrap_or_default();
+            let want = table.iter().enumerate().find_map(|(i, d)| d.find(&path).map(|_| (i, 100 + i as u16)));
+            let got = guard(|| {
+                let mut b = Router::<usize>::build();
+                for (i, d) in table.iter().enumerate() {
+                    let mut rd = make_rdef(d);
+                    rd.set_id(100 + i as u16);
+                    b.rdef(rd, i);
+                }
+                let r = b.finish();
+                let mut p = Path::new(path.as_str());
+                r.recognize(&mut p).map(|(v, id)| (*v, id.0))
+            });
+            let sigs = table.iter().map(def_sig).collect::<Vec<_>>().join(" ; ");
+            match got {
+                Ok(g) if g == want => {}
+                Ok(g) => rep.violation("router-first-match", &format!("router {sigs}"), &format!("recognized {:?}, expected {:?}", g, want), rp.clone()),
+                Err(p) => rep.violation("panic", &format!("router {sigs} in {}", panic_site(&p)), &p, rp.clone()),
+            }
+        }
+        "roundtrip" => {
+            if let Some(def) = def_from_json(&rp["def"]) {
+                if let Some(rdef) = build_rdef(rep, &def) {
+                    let vals: Vec<String> = rp["values"].as_array().map(|a| a.iter().map(|v| v.as_str().unwrap_or("").to_string()).collect()).unwrap_or_default();
+                    let refs: Vec<&str> = vals.iter().map(|s| s.as_str()).collect();
+                    match guard(|| roundtrip_case(&def, &rdef, &refs)) {
+                        Ok(Ok(_)) => {}
+                        Ok(Err(f)) => report(rep, "roundtrip", f, def_sig(&def), rp.clone()),
+                        Err(p) => rep.violation("panic", &format!("roundtrip {} in {}", def_sig(&def), panic_site(&p)), &p, rp.clone()),
+                    }
+                }
+            }
+        }
+        "quoter" => {
+            let protected = unesc(rp["protected"].as_str().unwrap_or(""));
+            let input = unesc(rp["input"].as_str().unwrap_or(""));
+            let r = guard(|| {
+                let q = Quoter::new(b"", &protected);
+                quoter_case(&q, &protected, &input)
+            });
+            match r {
+                Ok(Ok(_)) => {}
+                Ok(Err(f)) => {
+                    let sig = format!("protected={:?} {}", esc(&protected), f.class);
+                    report(rep, "quoter", f, sig, rp.clone());
+                }
+                Err(p) => rep.violation("panic", &format!("quoter in {}", panic_site(&p)), &p, rp.clone()),
+            }
+        }
+        "url" => {
+            if let Some(def) = def_from_json(&rp["def"]) {
+                let raw = rp["raw"].as_str().unwrap_or("/").to_string();
+                match guard(|| url_case(&def, &make_rdef(&def), &raw)) {
+                    Ok(Ok(_)) => {}
+                    Ok(Err(f)) => report(rep, "url", f, format!("url {}", def_sig(&def)), rp.clone()),
+                    Err(p) => rep.violation("panic", &format!("url {} in {}", def_sig(&def), panic_site(&p)), &p, rp.clone()),
+                }
+            }
+        }
+        _ => rep.inconclusive("replay file has no known phase"),
+    }
+    loc.flush(rep);
+}
+
+pub fn run(ctx: &Ctx, rep: &mut Reporter) {
+    if let Some(rp) = &ctx.replay {
+        if rp["phase"] == "long" {
+            replay_long(ctx, rep, rp);
+        } else {
+            replay(rep, rp);
+        }
+        return;
+    }
+    let miri = ctx.is_miri();
+    let monrel = ctx.layer == "monrel";
+
+    // definitions
+    let (fixed_random, extra) = if miri { (0, 2) } else if ctx.thorough() { (260, 2500) } else { (180, 250) };
+    let defs = build_defs(ctx.seed, extra, fixed_random);
+
+    if miri {
+        // a few hundred operations per shard: hand patterns × paths up to length 3, tiny quoter space
+        let paths = all_paths(3);
+        let mine: Vec<Def> = defs.iter().enumerate().filter(|(i, _)| ctx.mine(*i as u64)).map(|(_, d)| d.clone()).take(6).collect();
+        let one = Ctx { shard: 0, nshards: 1, ..clone_ctx(ctx) };
+        phase_exhaustive(&one, rep, &mine, &paths[..paths.len().min(60)]);
+        phase_quoter(ctx, rep, 3, 2);
+        // (no 64 KiB paths here: one regex search over such a path takes minutes under Miri)
+        return;
+    }
+
+    if monrel {
+        // release arithmetic: the offset-heavy phases only
+        phase_long(ctx, rep, ctx.share(24_000, 400_000));
+        let paths = all_paths(5);
+        phase_chain(ctx, rep, &defs, &paths, ctx.n(2000, 30_000));
+        phase_quoter(ctx, rep, 5, ctx.share(20000, 200000));
+        return;
+    }
+
+    let max_len = if ctx.thorough() { 8 } else { 7 };
+    let paths = all_paths(max_len);
+    let t = std::time::Instant::now();
+    let mut lap = |rep: &mut Reporter, name: &str| {
+        if std::env::var("AVMON_TIMING").is_ok() {
+            eprintln!("[c10] {name}: {:.2}s", t.elapsed().as_secs_f64());
+        }
+        let _ = rep;
+    };
+    // long paths first: they are the part a time budget must never cut
+    phase_long(ctx, rep, ctx.share(12_000, 400_000));
+    lap(rep, "phase_long");
+    phase_quoter(ctx, rep, if ctx.thorough() { 7 } else { 6 }, ctx.share(400_000, 6_000_000));
+    lap(rep, "phase_quoter");
+    phase_roundtrip(ctx, rep, &defs, if ctx.thorough() { 400 } else { 120 });
+    lap(rep, "phase_roundtrip");
+    phase_url(ctx, rep, &defs, ctx.share(160_000, 5_000_000));
+    lap(rep, "phase_url");
+    let short: Vec<String> = paths.iter().filter(|p| p.len() <= 6).cloned().collect();
+    phase_chain(ctx, rep, &defs, &short, ctx.n(2000, 40_000));
+    lap(rep, "phase_chain");
+    let shorter: Vec<String> = paths.iter().filter(|p| p.len() <= 5).cloned().collect();
+    phase_router(ctx, rep, &defs, &shorter, ctx.n(2000, 60_000));
+    lap(rep, "phase_router");
+    phase_exhaustive(ctx, rep, &defs, &paths);
+    lap(rep, "phase_exhaustive");
+    {
+        let mut meta = vec![];
+        for src in HAND_META {
+            let p = Pattern::parse(src).expect("meta pattern in grammar");
+            meta.push(Def::one(p.clone(), false));
+            if !p.has_tail() {
+                meta.push(Def::one(p, true));
+            }
+        }
+        let mpaths = all_paths_over(&SIGMA_META, if ctx.thorough() { 7 } else { 6 });
+        phase_exhaustive(ctx, rep, &meta, &mpaths);
+        lap(rep, "phase_exhaustive(meta)");
+    }
+
+    if ctx.shard == 0 {
+        let d = &defs[HAND.len()];
+        rep.sample("definition", json!({"patterns": d.sources(), "prefix": d.prefix, "shape": d.shape()}));
+        let (p, di, _) = long_case(ctx.seed, 0);
+        rep.sample("long-path", json!({"pattern": LONG_DEFS[di].0, "prefix": LONG_DEFS[di].1, "bytes": p.len(), "head": esc_short(p.as_bytes(), 40)}));
+        let (pr, inp) = quoter_random_case(ctx.seed, 3);
+        rep.sample("quoter", json!({"protected": esc(&pr), "input": esc_short(&inp, 80), "expected": pct_decode::requote(&inp, &pr).map(|v| esc_short(&v, 80))}));
+    }
+}
+
+fn clone_ctx(c: &Ctx) -> Ctx {
+    Ctx {
+        tier: c.tier,
+        seed: c.seed,
+        shard: c.shard,
+        nshards: c.nshards,
+        replay: None,
+        budget_s: c.budget_s,
+        start: c.start,
+        scale_pct: c.scale_pct,
+        layer: c.layer.clone(),
+    }
+}
+
+fn replay_long(ctx: &Ctx, rep: &mut Reporter, rp: &Value) {
+    rep.eval();
+    rep.sig("replay");
+    rep.sig("replay2");
+    let case = rp["case"].as_u64().unwrap_or(0);
+    let seed = rp["seed"].as_u64().unwrap_or(ctx.seed);
+    let (path, di, di2) = long_case(seed, case);
+    let defs: Vec<Def> = LONG_DEFS.iter().map(|(s, p)| Def::one(Pattern::parse(s).unwrap(), *p)).collect();
+    let mut loc = Local::new();
+    if let Some(rdef) = build_rdef(rep, &defs[di]) {
+        run_case_long(rep, &mut loc, &defs[di], &rdef, &path, &mut vec![], case, seed);
+        if defs[di].prefix {
+            if let Some(r2) = build_rdef(rep, &defs[di2]) {
+                match guard(|| check_chain(&defs[di], &rdef, &defs[di2], &r2, &path)) {
+                    Ok(Ok(_)) => {}
+                    Ok(Err(f)) => report(rep, "long-chain", f, format!("long: {} then {}", def_sig(&defs[di]), def_sig(&defs[di2])), rp.clone()),
+                    Err(p) => rep.violation("panic", &format!("long chain {} in {}", def_sig(&defs[di]), panic_site(&p)), &p, rp.clone()),
+                }
+            }
+        }
+    }
+    loc.flush(rep);
 }
